@@ -185,11 +185,15 @@ class _Block:
             if fired_here:
                 raise self.inj.S.TimeoutException("injected after the body of block %d" % self.k)
             return False
-        frame.f_trace = None
-        sys.settrace(None)
         if et is None:
+            frame.f_trace = None
+            sys.settrace(None)
             self.rec["post"] = self.inj.snap(frame, self.rec)     # the body ran to its end
         else:
-            self.rec["exc"] = et.__name__                          # e.g. ValueError raised by check_results' comparison
-            self.rec["post"] = self.inj.snap(frame, self.rec)
+            # some other exception leaves the body (e.g. ValueError raised by check_results' comparison):
+            # snapshot after the enclosing handler, if there is one in this frame
+            self.rec["exc"] = et.__name__
+            sys.settrace(Injector._global)
+            frame.f_trace = self._observe
+            frame.f_trace_lines = True
         return False
